@@ -57,7 +57,7 @@ var optAlpha = map[string][]rune{
 
 var optSnippets = map[string][]string{
 	"generic": {"a  # c\n  b", "x 😀  'q' 1 2.5 # end", "a\r\n\r\n 'it' \"s\"\n\r-1 .5", "😀 😀  a", "# only\n# two\n", " \n 'multi\nline' x"},
-	"expression": {"a /* c */ b", "a  /* c */  b /* d */\n  c", "1 /*x*/ 2.5e3 'it''s' \"q\"\"r\" 😀 ", "/* c */ /* d */ x", "a\r\n+ 'b'\n\r/*\n*/ 7",
+	"expression": {"a i\u017f null\nor x l\u0131ke 'y'  fal\u017fe and\n  x \u0131n y", "a /* c */ b", "a  /* c */  b /* d */\n  c", "1 /*x*/ 2.5e3 'it''s' \"q\"\"r\" 😀 ", "/* c */ /* d */ x", "a\r\n+ 'b'\n\r/*\n*/ 7",
 		"😀/**/ 😀 1", " /**/ ", "x /* unterminated"},
 	"csv":                {"a,b\r\n\"c,d\",\"e\"\"f\"\n", "\"x\"\r\"y\"\n\r\"\"", "a,\"multi\nline\",b\rc"},
 	"generic-custom":     {"a =:= b\n=: c", "<!-- x\n--> !>>> !>>\n!"},
